@@ -1,5 +1,7 @@
 import RxVerif.Spec.Single
 import RxVerif.Machine.Case
+import RxVerif.Kernel.Retry
+import RxVerif.Spec.Retry
 /-
 Evaluating the ReactiveX specification (and, independently, the chain of kernel runs) on a case of the
 fragment "one subscriber, a chain of single-source operators over one cold well-formed source".
@@ -92,6 +94,29 @@ def specLine (line : String) : String :=
   | some (.list [.atom "case", .atom id, .list [.atom "sub", p, .list [.atom "react"]]]) =>
     match evalPipe p with
     | some (s, t) => id ++ " | " ++ evStr s.toEvs ++ " | " ++ evStr t.toEvs
+    | none => id ++ " -"
+  | some (.list [.atom "case", .atom id, .list [.atom "counter", _],
+      .list [.atom "sub", .list [.atom op, arg, .list (.atom "flaky" :: _ :: _ :: scripts)], .list [.atom "react"]]]) =>
+    -- recovery operators over a flaky source: spec (Spec/Retry.lean) and pure mirror (Kernel/Retry.lean)
+    match scripts.mapM (fun s => match s with | .list evs => evs.mapM parseEv | _ => none) with
+    | some ss =>
+      let attempts := ss.map Stream.ofScript
+      if attempts.isEmpty then id ++ " -" else
+      match op with
+      | "retry" =>
+        match arg.asNat with
+        | some n =>
+          if n == 0 && attempts.all (fun a => match a.2 with | .error _ => true | _ => false) then id ++ " -" else
+          let fuel := attempts.length + n + 1
+          id ++ " | " ++ evStr (retrySpec n attempts).1 ++ " | " ++ evStr (retryRun n attempts fuel).1
+        | none => id ++ " -"
+      | "retry_when" =>
+        match parseEPred arg with
+        | some p =>
+          let fuel := attempts.length + 1
+          id ++ " | " ++ evStr (retryWhenSpec p.app attempts).1 ++ " | " ++ evStr (retryWhenRun p.app attempts fuel).1
+        | none => id ++ " -"
+      | _ => id ++ " -"
     | none => id ++ " -"
   | some (.list (.atom "case" :: .atom id :: _)) => id ++ " -"
   | _ => "PARSE-ERROR " ++ line
